@@ -1,5 +1,8 @@
 ------------------------ MODULE PlannerContractTrace ------------------------
 (* impl -> spec: every recorded solve report must be allowed by the contract. *)
+(* A report that is not allowed is printed (with the names of the failed      *)
+(* clauses) and the cursor still advances, so one pass judges every report;   *)
+(* Hang / Crash events are never allowed.                                     *)
 EXTENDS PlannerContract, TraceIO
 
 VARIABLE l
@@ -7,10 +10,14 @@ Ev == Log[l]
 
 TInit == l = 1
 Norm(r) == [r EXCEPT !.obst = SeqToSet(r.obst)]
+Report(failed) == IF failed = {} THEN TRUE ELSE PrintT(ToJson([line |-> l, failed |-> failed]))
 TSolve == /\ l <= NLog /\ Ev.e = "Solve"
-          /\ FirstSolveOK(Norm(Ev))
+          /\ Report(FailedFirstSolve(Norm(Ev)))
           /\ l' = l + 1
-TNext == TSolve
+TBad == /\ l <= NLog /\ Ev.e \in {"Hang", "Crash"}
+        /\ Report({Ev.e})
+        /\ l' = l + 1
+TNext == TSolve \/ TBad
 TSpec == TInit /\ [][TNext]_l
 NotAccepted == l <= NLog
 ==============================================================================
